@@ -545,6 +545,7 @@ func (g *FuncGen) initFrame() {
 	g.strPos = map[*ssa.BasicBlock]string{}
 	g.strAx = map[string]bool{}
 	g.strNext = map[*ssa.BasicBlock]string{}
+	g.atCallPhi = map[string]*ssa.BasicBlock{}
 	g.localAllocs = map[*ssa.Alloc]bool{}
 }
 
